@@ -837,12 +837,18 @@ func (fv *FuncVerifier) checkAtCall(fn *types.Func, call *ast.CallExpr, st *Stat
 		}
 		wsig := wfd.fn.Type().(*types.Signature)
 		vals := make([]Term, wsig.Params().Len())
+		oldB := map[types.Object]Term{} // old(x) of a parameter the function reassigns is its entry value
 		for k := 0; k < wsig.Params().Len(); k++ {
 			name := wsig.Params().At(k).Name()
 			if scope != nil {
 				if _, obj := scope.LookupParent(name, call.Pos()); obj != nil {
 					if v, ok := st.vars[obj]; ok {
 						vals[k] = v
+						if fv.entry != nil {
+							if ev, ok := fv.entry.vars[obj]; ok {
+								oldB[wsig.Params().At(k)] = ev
+							}
+						}
 						continue
 					}
 				}
@@ -851,7 +857,11 @@ func (fv *FuncVerifier) checkAtCall(fn *types.Func, call *ast.CallExpr, st *Stat
 				vals[k] = v
 			}
 		}
+		savedOB := fv.oldBound
+		fv.oldBound = oldB
+		fv.inClauseHere = true
 		t := fv.evalWrapper(fv.spec.PkgPath, c.Wrapper, vals, st, fv.entry)
+		fv.oldBound = savedOB
 		fv.oblige(st, "atcall", fmt.Sprintf("%s:%d:%d", fn.Name(), ord, i), t, call.Pos(), "at call to "+fn.Name()+": "+c.Text)
 	}
 }
@@ -1007,7 +1017,22 @@ func (fv *FuncVerifier) getPure(fn *types.Func, sp *FuncSpec, ts map[*types.Type
 	key := sp.Key + tsubstKey(ts)
 	if pd, ok := fv.pureDefs[key]; ok {
 		if pd == nil {
-			reject("recursive pure function %s", key)
+			// a recursive reference met while the function is being defined: a specification
+			// function with an explicit body becomes a define-fun-rec (single result, no heap reads)
+			if sp.Kind != SKSpecFunc || sp.Body == "" {
+				reject("recursive pure function %s", key)
+			}
+			rfd := fv.prog.decls[sp.Key]
+			rsig := rfd.fn.Type().(*types.Signature)
+			if rsig.Results().Len() != 1 {
+				reject("recursive specification function %s must have one result", key)
+			}
+			if fv.recPure == nil {
+				fv.recPure = map[string]bool{}
+			}
+			fv.recPure[key] = true
+			rs := fv.mustSort(rsig.Results().At(0).Type(), "spec func result")
+			return &pureDef{names: []string{"f_" + sanitize(strings.TrimPrefix(key, "github.com/synnaxlabs/"))}, sorts: []*Sort{rs}}
 		}
 		return pd
 	}
@@ -1112,7 +1137,26 @@ func (fv *FuncVerifier) getPure(fn *types.Func, sp *FuncSpec, ts map[*types.Type
 		if len(results) > 1 {
 			n = fmt.Sprintf("%s_%d", base, i)
 		}
-		if len(formals) == 0 {
+		if fv.recPure[key] {
+			if len(heaps) > 0 {
+				reject("recursive specification function %s reads the heap", key)
+			}
+			fv.u.decls = append(fv.u.decls, fmt.Sprintf("(define-fun-rec %s (%s) %s %s)", n, strings.Join(formals, " "), r.Sort.Name, r.S))
+			fv.u.note("recursive specification function %s (define-fun-rec): the solvers unfold it, induction comes from loop invariants", shortName(sp.Key))
+		} else if _, opaque := sp.Pragmas["trigger"]; opaque && sp.Kind == SKSpecFunc && len(formals) > 0 {
+			// pragma trigger: the function stays a symbol (declare-fun plus a definitional axiom
+			// whose pattern is its application), so that an application written in a hint is a
+			// ground term quantifier instantiation can match: used to hand witnesses to exists-goals
+			var srt, nm []string
+			for _, f := range formals {
+				f = strings.TrimSuffix(strings.TrimPrefix(f, "("), ")")
+				k := strings.IndexByte(f, ' ')
+				nm = append(nm, f[:k])
+				srt = append(srt, f[k+1:])
+			}
+			appl := "(" + n + " " + strings.Join(nm, " ") + ")"
+			fv.u.decls = append(fv.u.decls, fmt.Sprintf("(declare-fun %s (%s) %s)\n(assert (forall (%s) (! (= %s %s) :pattern (%s))))", n, strings.Join(srt, " "), r.Sort.Name, strings.Join(formals, " "), appl, r.S, appl))
+		} else if len(formals) == 0 {
 			fv.u.decls = append(fv.u.decls, fmt.Sprintf("(define-fun %s () %s %s)", n, r.Sort.Name, r.S))
 		} else {
 			fv.u.decls = append(fv.u.decls, fmt.Sprintf("(define-fun %s (%s) %s %s)", n, strings.Join(formals, " "), r.Sort.Name, r.S))
@@ -1664,6 +1708,12 @@ func (fv *FuncVerifier) evalClauseHere(c *Clause, st *State, pos token.Pos) Term
 	scope := fr.pkg.Types.Scope().Innermost(pos)
 	for i := 0; i < sig.Params().Len(); i++ {
 		name := sig.Params().At(i).Name()
+		if lo := fv.letObjs[name]; lo != nil {
+			if v, ok := st.vars[lo]; ok {
+				vals[i] = v
+				continue
+			}
+		}
 		if scope == nil {
 			continue
 		}
